@@ -402,6 +402,29 @@ impl ConsumerGroup {
     }
 }
 
+#[cfg(feature = "verif")]
+impl ConsumerGroup {
+    /// Verification hook (read-only): every representation of the pending state.
+    /// Returns (last_delivered, by_id [(id, consumer, delivery_count)], by_consumer [(name, ids)] sorted by name,
+    /// consumers [(name, pending_count)] sorted by name, total_pending, min_pending, max_pending).
+    #[allow(clippy::type_complexity)]
+    pub fn verif_dump(&self) -> (StreamId, Vec<(StreamId, String, u64)>, Vec<(String, Vec<StreamId>)>,
+                                 Vec<(String, usize)>, usize, Option<StreamId>, Option<StreamId>) {
+        let last = self.last_delivered_id.lock().unwrap().clone();
+        let pel = self.pending.read().unwrap();
+        let by_id = pel.entries_by_id.iter()
+            .map(|(id, e)| (id.clone(), e.consumer.clone(), e.delivery_count as u64)).collect();
+        let mut by_consumer: Vec<(String, Vec<StreamId>)> = pel.entries_by_consumer.iter()
+            .map(|(c, ids)| (c.clone(), ids.clone())).collect();
+        by_consumer.sort_by(|a, b| a.0.cmp(&b.0));
+        let mut consumers: Vec<(String, usize)> = self.consumers.read().unwrap().iter()
+            .map(|(n, c)| (n.clone(), c.pending_count)).collect();
+        consumers.sort_by(|a, b| a.0.cmp(&b.0));
+        let total = *self.total_pending.lock().unwrap();
+        (last, by_id, by_consumer, consumers, total, pel.min_pending_id.clone(), pel.max_pending_id.clone())
+    }
+}
+
 impl PendingEntryList {
     /// Create a new pending entry list
     pub fn new() -> Self {
